@@ -7,6 +7,7 @@ python3 tools/mkvendor.py /verif/vendor
 (cd harness && cargo build --bins -q)
 (cd harness && cargo build --release -q -p hx --bin progsim)
 (cd harness-inert && cargo build -q)
+(cd harness-plain && cargo build -q)
 # ThreadSanitizer build (instrumented std); a failure here only makes that supplement inconclusive
 python3 tools/mkvendor_std.py || true
 (cd harness && RUSTFLAGS="-Zsanitizer=thread" cargo +nightly build -q -Zbuild-std -p hx --bin stress --bin hostile --bin progsim \
